@@ -29,8 +29,15 @@ def build(asm, tier):
         asm.unit(bu[n])
     asm.raw('} // mod lib\npub mod units {\n' + common.UNITS_USES + 'broadcast use super::lib::ax_zero_f64, super::lib::ax_variable_id_key_model;\nuse super::lib::v1::decision_variable::Kind;\n')
     asm.raw(io.SLACK_STUBS + io.defined_ids_stub(), 'assumed callee contracts')
-    for n in ('Instance::get_kinds', 'Function::used_decision_variable_ids', 'Function::content_factor', 'Function::evaluate_bound', 'f64 * Function', 'Function + Linear', 'Bound::as_integer_bound (A3: returns)', 'Instance::defined_ids'):
-        asm.stubs.append(dict(unit=n, proved_in='C16/C02/C08'))
+    for n, where in (('Instance::get_kinds', 'assumed (iterator collect into a HashMap)'),
+                     ('Function::used_decision_variable_ids', 'C08 for Constant/Linear and the dispatch; the Quadratic/Polynomial collects are assumed there'),
+                     ('Function::content_factor', 'assumed (gcd/lcm over f64 mantissas: not within reach); exercised by the bounded stand-in'),
+                     ('Function::evaluate_bound', 'C16 (same preconditions: bounds_wf, small_degree, fn_coo_ok)'),
+                     ('f64 * Function', 'C02 (value and ids); the clause small_degree(rhs) ==> small_degree(r) is assumed'),
+                     ('Function + Linear', 'C02'),
+                     ('Bound::as_integer_bound (A3: returns)', 'C16 (result); that it returns is assumption A3'),
+                     ('Instance::defined_ids', 'C08')):
+        asm.stubs.append(dict(unit=n, proved_in=where))
     for u in (ev.bound_try_from_v1bound(), ev.get_bounds(), io.v1bound_from_bound(), io.linear_single_term(), io.relax_constraint(), io.convert_inequality(), io.add_integer_slack()):
         asm.unit(u)
     asm.raw('} // mod units\n')
@@ -47,6 +54,6 @@ proof fn vacuity_pre(v: real, a: real, l: real) requires a > 0real, is_intr(a * 
             'A3: Bound::as_integer_bound returns (the rounded interval contains an integer); it panics otherwise - observation outside the property',
             'T4: Vec::iter_mut().find(C) as a prophecy-style helper; u64 as f64 exact',
         ],
-        assumptions=common.A1,
+        assumptions=common.A1 + common.A_COO + ['precondition (observation): monomials of the constraint function have degree < 256 (Function::evaluate_bound casts multiplicities to u8: C16 proves the enclosure under this precondition)', 'ASSUMED beyond the C02 contract: f64 * Function keeps small_degree (a scalar multiple keeps or empties the id lists of the monomials)'],
         not_covered=[],
     )
